@@ -83,7 +83,7 @@ func (h FileHandle) Remove(ctx context.Context) error {
 
 	p := h.parents[len(h.parents)-1]
 	// TODO(frobnitzem): consider using h.Name here?
-	err := p.unlink_child(h.ent.Info.Name)
+	err := p.unlink_child(h.ent.Info.Name, h.ent)
 	if err == nil { // remove parent -> child ref count
 		h.ent.decref()
 	}
